@@ -330,7 +330,8 @@ def _write_image_complete(ctx) -> None:
         if l == "loop":
             walk(d, 0, frozenset())
     body_txt = " ".join(norm(st) for st in lp.ast.body)
-    from_tag = f"[{rv}.name].get_value()" in body_txt
+    # the value of the tag named like the register: its reported value (get_value(), the simulation mask - see R08h) or its real slot
+    from_tag = f"[{rv}.name].get_value()" in body_txt or f"[{rv}.name].value" in body_txt
     dom = g.dominates(lp, wb[0])
     order_ok = norm(call.args[0]) == V and norm(call.args[1]) == R
     if counts == {1} and from_tag and dom and order_ok:
